@@ -18,7 +18,7 @@ p = os.path.join(VERIF, "DESIGN.md")
 s = open(p).read()
 a = s.index("### 0.5 Seeded changes")
 b = s.index("### 0.6 Per property", a) if "### 0.6 Per property" in s[a:] else s.index("---------------------------------------------------------------------------", a)
-head = "### 0.5 Seeded changes (independent sub-agents; `seeded/<id>/`) and which check catches them\n\nEach change was produced by a fresh sub-agent that saw only the property text and a scratch worktree (six rounds of 20 agents, one per property: two changes each in the first three rounds, one each in rounds four to six, 180 changes; where two agents arrived at the same mechanism independently both are kept); I confirmed in a scratch worktree that its demonstration passes without and fails with the patch and that the existing suite passes with it (`lib/seed_confirm.sh`, results in `seeded/<id>/meta.json`), then ran the property's quick check against the patched worktree. Seeds that were missed when first filed were handed back to the engine concerned as a description of the gap (never as a special case); `lib/seed_recheck_all.sh` re-runs every seed against the current checks — the table's last column is that run's result. A seed whose patch stopped applying after a repair commit was rebased on the repaired tree and re-confirmed (C06-b; the original is kept as `patch.original.diff`). `chain_mutation_sweep.json` additionally records 37 syntactic mutants of consensus.go/contracts.go/update.go (36 flagged; the remaining one, `index.Height > rejectBuffer`, is equivalent: `RejectContracts(0)` selects nothing).\n\n"
+head = "### 0.5 Seeded changes (independent sub-agents; `seeded/<id>/`) and which check catches them\n\nEach change was produced by a fresh sub-agent that saw only the property text and a scratch worktree (six rounds of 20 agents, one per property: two changes each in the first three rounds, one each in rounds four to six, 180 changes; a seventh, shorter round of 12 agents in the last session (C01 C02 C03 C04 C05 C09 C10 C11 C13 C15 C17 C19, ids `-j`), 192 changes in all; where two agents arrived at the same mechanism independently both are kept); I confirmed in a scratch worktree that its demonstration passes without and fails with the patch and that the existing suite passes with it (`lib/seed_confirm.sh`, results in `seeded/<id>/meta.json`), then ran the property's quick check against the patched worktree. Seeds that were missed when first filed were handed back to the engine concerned as a description of the gap (never as a special case); `lib/seed_recheck_all.sh` re-runs every seed against the current checks — the table's last column is that run's result. A seed whose patch stopped applying after a repair commit was rebased on the repaired tree and re-confirmed (C06-b; the original is kept as `patch.original.diff`). `chain_mutation_sweep.json` additionally records 37 syntactic mutants of consensus.go/contracts.go/update.go (36 flagged; the remaining one, `index.Height > rejectBuffer`, is equivalent: `RejectContracts(0)` selects nothing).\n\n"
 s = s[:a] + head + table + "\n" + s[b:]
 open(p, "w").write(s)
 print(len(rows), "seeds")
